@@ -409,7 +409,7 @@ pub fn run_c06(ctx: &mut Ctx) -> RunResult {
     ctx.world("B");
     let k = BKnobs::draw(ctx, 1);
     let seg = Link::draw_mode(ctx);
-    let st = gen_stream(ctx, &k, 10);
+    let st = gen_stream(ctx, &k, if ctx.tier_thorough { 30 } else { 10 });
     if st.completed.len() >= 2 {
         ctx.nontrivial = true;
     }
@@ -421,7 +421,7 @@ pub fn run_c16(ctx: &mut Ctx) -> RunResult {
     ctx.world("B");
     let k = BKnobs::draw(ctx, 4);
     let seg = Link::draw_mode(ctx);
-    let st = gen_stream(ctx, &k, 8);
+    let st = gen_stream(ctx, &k, if ctx.tier_thorough { 24 } else { 8 });
     if st.interleaved_switches >= 2 {
         ctx.nontrivial = true;
         ctx.probe("b.interleaved_run");
